@@ -172,6 +172,21 @@ def auto_harness(entry, fo):
         entry, "\n".join(decls), call)
 
 
+_LOOPS = None
+
+
+def _loops_baseline():
+    """engine/loops_baseline.json (tools/gen_loops_baseline.py): loops per extracted function on the unchanged tree"""
+    global _LOOPS
+    if _LOOPS is None:
+        try:
+            with open(os.path.join(HERE, "loops_baseline.json")) as f:
+                _LOOPS = json.load(f)
+        except Exception:
+            _LOOPS = {}
+    return _LOOPS
+
+
 def run_one(mod, proof, ix, workdir):
     t0 = time.time()
     out = {"name": proof.name, "level": proof.level, "tier": proof.tier}
@@ -198,8 +213,10 @@ def run_one(mod, proof, ix, workdir):
             cdict = dict(mod.contracts)
             if proof.contracts:
                 cdict.update(proof.contracts)
+            known = _loops_baseline().get(mod.prop_id, {}).get(proof.name)
             uncovered = [fo for fo in em.funcs.values() if fo.cname not in replace and
-                         fo.nloops > len(cdict.get(fo.cname, {}).get("loops", {}))]
+                         fo.nloops > len(cdict.get(fo.cname, {}).get("loops", {})) and
+                         (known is None or fo.nloops > known.get(fo.cname, 0))]
             if uncovered:
                 # (dfcc renames the body of the function under contract to <f>_wrapped_for_contract_checking)
                 unwindset = unwindset + tuple("%s%s.%d:64" % (fo.cname, suf, i) for fo in uncovered for i in range(fo.nloops)
